@@ -284,6 +284,35 @@ def collect(hs, script, impl, model, judge, hangs, merr):
                 rec["judge_fails"].append(jf)
                 if rec["judge_fail"] is None:
                     rec["judge_fail"] = jf
+        # C04 read literally: "a reopened series reports the same contents, length, time range, last line, payload size and user
+        # header as before it was closed". For every `close` directly followed by an `open` of the same name that succeeds
+        # (nothing touched the files in between), the answers of the implementation to the read-only calls issued between the
+        # last operation that can change the series (a push counts, accepted or not) and the close are compared with its answers
+        # to the same calls after the open. The implementation against itself: no model, no judge.
+        j = 0
+        while j < len(ops) and j < len(ri):
+            if ops[j] == "close" and j + 1 < len(ops) and j + 1 < len(ri) and ops[j + 1].split()[0] == "open" and ri[j + 1][2:].startswith("ok"):
+                before = {}
+                q = j - 1
+                while q >= 0 and plans.opkind(ops[q]) in plans.PURE_OPS:
+                    before.setdefault(ops[q], (q, ri[q][2:].split(" | ")[0].strip()))
+                    q -= 1
+                opened_name = ops[j + 1].split()[1]
+                same = q >= 0 and any(ops[x].split()[0] in ("new", "open") and ops[x].split()[1] == opened_name and
+                                      not any(ops[y] == "close" for y in range(x + 1, j)) for x in range(q + 1))
+                q = j + 2
+                while same and q < len(ops) and q < len(ri) and plans.opkind(ops[q]) in plans.PURE_OPS:
+                    if ops[q] in before and q not in failed_ops and before[ops[q]][0] not in failed_ops:
+                        was, now = before[ops[q]][1], ri[q][2:].split(" | ")[0].strip()
+                        if was != now and was.startswith("ok") and "panic" not in now and "hang" not in now:
+                            jf = {"op_index": q, "op": ops[q], "what": "result %s :: got %s :: but the same call just before the clean close (op %d) answered %s"
+                                  % (ops[q], now[:200], before[ops[q]][0] + 1, was[:200]), "props": ["C04"], "consistency": True}
+                            rec["judge_fails"].append(jf)
+                            if rec["judge_fail"] is None:
+                                rec["judge_fail"] = jf
+                            break
+                    q += 1
+            j += 1
         # C01 / C18 read literally: a read never returns a line nobody appended ("nothing added", "never a line with a fabricated
         # timestamp"). For a series whose content comes from appends of this history only (no foreign bytes were put into its
         # data file), every (timestamp, payload) a full, bounded or first-n read returns must be one an accepted append wrote -
@@ -558,6 +587,7 @@ def check(pid, tier, seed):
         "ops_run": sum(r["nops"] for r in recs), "ops_judged": sum(r["judged"] for r in recs),
         "histories_undetermined": sum(1 for r in recs if r["undet"]),
         "literal_file_checks": sum(r.get("literal_checked", 0) for r in recs),
+        "generator_errors": list(gen.GEN_ERRORS)[:20],
         "correspondence_disagreements": len(disagreements),
         "known_findings_hit": {k: len(v) for k, v in known_hits.items()},
         "broken": [list(p) for p in problems],
